@@ -94,3 +94,45 @@
     (! (=> (and (<= 0 v) (<= 0 n) (< v (bytes.pow256 n))) (<= (bytes.minLen v) n))
        :pattern ((bytes.minLen v) (bytes.pow256 n))))
   :lemmas (minLen_def pow256_mono))
+
+; big-endian value of a window: one-step unfoldings and shift-invariance
+(lemma beIntFrom_end (forall ((b (Array Int Int)) (j Int) (n Int)) (=> (>= j n) (= (bytes.beIntFrom b j n) 0)))
+  :reveal (bytes.beIntFrom))
+(lemma beIntFrom_split (forall ((b (Array Int Int)) (j Int) (n Int))
+    (=> (< j n) (= (bytes.beIntFrom b j n) (+ (select b (- n 1)) (* 256 (bytes.beIntFrom b j (- n 1)))))))
+  :reveal (bytes.beIntFrom))
+(lemma beIntFrom_shift
+  (forall ((a (Array Int Int)) (c (Array Int Int)) (j Int) (i Int) (n Int))
+    (! (=> (forall ((k Int)) (=> (and (<= 0 k) (< k n)) (= (select a (+ i k)) (select c (+ j k)))))
+           (= (bytes.beIntFrom a i (+ i n)) (bytes.beIntFrom c j (+ j n))))
+       :pattern ((bytes.beIntFrom a i (+ i n)) (bytes.beIntFrom c j (+ j n)))))
+  :induct n :inst (a c j i (- n 1))
+  :unfold ((bytes.beIntFrom a i (+ i n)) (bytes.beIntFrom c j (+ j n))))
+; the n-byte big-endian form of the value of an n-byte window is the window (round trip)
+(lemma beByte_of_beInt
+  (forall ((b (Array Int Int)) (j Int) (n Int) (k Int))
+    (=> (and (<= 0 k) (< k n) (forall ((t Int)) (=> (and (<= j t) (< t (+ j n))) (and (<= 0 (select b t)) (< (select b t) 256)))))
+        (= (bytes.beByte (bytes.beIntFrom b j (+ j n)) n k) (select b (+ j k)))))
+  :induct n
+  :unfold ((bytes.beByte (bytes.beIntFrom b j (+ j n)) n k) (bytes.beIntFrom b j (+ j n)))
+  :inst (b j (- n 1) k))
+(lemma beInt_bound
+  (forall ((b (Array Int Int)) (j Int) (n Int))
+    (=> (and (<= 0 n) (forall ((t Int)) (=> (and (<= j t) (< t (+ j n))) (and (<= 0 (select b t)) (< (select b t) 256)))))
+        (and (<= 0 (bytes.beIntFrom b j (+ j n))) (< (bytes.beIntFrom b j (+ j n)) (bytes.pow256 n)))))
+  :induct n :reveal (bytes.beIntFrom bytes.pow256) :inst (b j (- n 1)))
+(lemma beIntFrom_shift2
+  (forall ((a (Array Int Int)) (c (Array Int Int)) (i Int) (j Int) (e1 Int) (e2 Int))
+    (! (=> (and (= (- e1 i) (- e2 j))
+                (forall ((t Int)) (=> (and (<= i t) (< t e1)) (= (select a t) (select c (+ t (- j i)))))))
+           (= (bytes.beIntFrom a i e1) (bytes.beIntFrom c j e2)))
+       :pattern ((bytes.beIntFrom a i e1) (bytes.beIntFrom c j e2))))
+  :induct (- e1 i) :inst (a c i j (- e1 1) (- e2 1))
+  :unfold ((bytes.beIntFrom a i e1) (bytes.beIntFrom c j e2)))
+(lemma beInt_bound2
+  (forall ((b (Array Int Int)) (j Int) (e Int))
+    (! (=> (and (<= j e) (forall ((t Int)) (=> (and (<= j t) (< t e)) (and (<= 0 (select b t)) (< (select b t) 256)))))
+           (and (<= 0 (bytes.beIntFrom b j e)) (< (bytes.beIntFrom b j e) (bytes.pow256 (- e j)))))
+       :pattern ((bytes.beIntFrom b j e))))
+  :induct (- e j) :reveal (bytes.pow256) :inst (b j (- e 1))
+  :unfold ((bytes.beIntFrom b j e)))
